@@ -115,6 +115,26 @@ struct PtrMap {
 
 ////////////////////////////////////////////////////////////////////////////////
 // Recording page allocator
+// A release window brackets exactly one release() / destruction of one resource. The property demands that
+// release() runs every registered destructor first and only THEN returns pages / oversize blocks: memory handed
+// back inside the window is counted, and a destructor that runs after the first hand-back is a violation (added
+// after the seeded change C06-a1 — the shared resource releasing its per-thread parts one after the other,
+// destructors of later parts running after the pages of earlier parts were gone — escaped the content checks).
+std::atomic<uint64_t> g_returned_in_window {0};
+struct ReleaseWindow {
+  std::atomic<bool> open {false};
+  ReleaseWindow& operator=(bool v) {
+    if (v) g_returned_in_window.store(0, std::memory_order_relaxed);
+    open.store(v, std::memory_order_release);
+    return *this;
+  }
+  bool load(std::memory_order = std::memory_order_relaxed) const { return open.load(std::memory_order_acquire); }
+};
+ReleaseWindow g_release_window;
+inline void note_memory_returned() {
+  if (g_release_window.load()) g_returned_in_window.fetch_add(1, std::memory_order_relaxed);
+}
+
 struct RecPages : public ::babylon::PageAllocator {
   static constexpr size_t kGuard = 64;
   size_t ps = 4096;
@@ -160,6 +180,7 @@ struct RecPages : public ::babylon::PageAllocator {
         continue;  // never free memory we do not own
       }
       n_free.fetch_add(1, std::memory_order_relaxed);
+      note_memory_returned();
       for (size_t g = 0; g < kGuard; ++g) {
         if (static_cast<unsigned char*>(p)[ps + g] != 0xA7) {
           fail("page-overrun", vf::fmt("the %zu bytes behind page %p (page size %zu) were written (first at offset +%zu): the "
@@ -228,6 +249,7 @@ struct RecUpstream : public ::std::pmr::memory_resource {
                    alignment));
       return;
     }
+    note_memory_returned();
     if (e.bytes != bytes || e.align != alignment) {
       ++n_wrong;
       fail("upstream-dealloc-wrong-size-or-alignment",
@@ -285,7 +307,6 @@ struct RecUpstream : public ::std::pmr::memory_resource {
 // Blocks, patterns, destructors
 constexpr uint64_t kDtorMagic = 0xd7012c06d7012c06ULL;
 constexpr uint64_t kObjMagic = 0x0b1ec7c06c06b1ecULL;
-std::atomic<bool> g_release_window {false};
 
 struct Dtor {
   uint64_t magic = kDtorMagic;
@@ -305,6 +326,14 @@ void dtor_ext(void* p) {
     fail("destructor-run-outside-release", "a registered destructor ran while no release()/destruction was in progress");
   d->runs.fetch_add(1, std::memory_order_relaxed);
   VF_COUNT("obs:destructors_run");
+  if (g_release_window.load() && g_returned_in_window.load(std::memory_order_relaxed) != 0) {
+    VF_COUNT("obs:destructor_after_memory_returned");
+    fail("destructor-ran-after-memory-was-returned",
+         vf::fmt("release() had already handed %lu page(s)/oversize block(s) back when a registered destructor ran: "
+                 "destructors must all run before any memory of the resource is returned (an object may refer to "
+                 "memory of the same resource that another thread allocated)",
+                 (unsigned long)g_returned_in_window.load(std::memory_order_relaxed)));
+  }
 }
 void dtor_obj(void* p) {
   auto* h = static_cast<ObjHeader*>(p);
